@@ -180,7 +180,7 @@ func (r *Run) Violation(sig string, detail any) {
 	defer r.mu.Unlock()
 	v := r.viol[sig]
 	if v == nil {
-		_, known := r.known[sig]
+		known := r.matchKnown(sig) != ""
 		v = &violation{Signature: sig, Detail: detail, Known: known}
 		r.viol[sig] = v
 		r.violOrder = append(r.violOrder, sig)
@@ -189,7 +189,41 @@ func (r *Run) Violation(sig string, detail any) {
 }
 
 // KnownOpen tells whether sig is listed as an open finding (drivers use it only for reporting).
-func (r *Run) KnownOpen(sig string) bool { _, ok := r.known[sig]; return ok }
+func (r *Run) KnownOpen(sig string) bool { return r.matchKnown(sig) != "" }
+
+// matchKnown returns the pattern of the open finding that lists sig ("" if none).  A pattern is the exact
+// signature or contains '*' wildcards (each matches any run of characters).
+func (r *Run) matchKnown(sig string) string {
+	if _, ok := r.known[sig]; ok {
+		return sig
+	}
+	for pat := range r.known {
+		if strings.Contains(pat, "*") && globMatch(pat, sig) {
+			return pat
+		}
+	}
+	return ""
+}
+
+func globMatch(pat, s string) bool {
+	parts := strings.Split(pat, "*")
+	if !strings.HasPrefix(s, parts[0]) {
+		return false
+	}
+	s = s[len(parts[0]):]
+	for i := 1; i < len(parts); i++ {
+		p := parts[i]
+		if i == len(parts)-1 {
+			return strings.HasSuffix(s, p)
+		}
+		j := strings.Index(s, p)
+		if j < 0 {
+			return false
+		}
+		s = s[j+len(p):]
+	}
+	return true
+}
 
 func (r *Run) NumViolations() int {
 	r.mu.Lock()
@@ -214,7 +248,7 @@ func (r *Run) Finish() {
 	for i, sig := range r.violOrder {
 		v := r.viol[sig]
 		if v.Known {
-			fmt.Printf("KNOWN-FINDING: property=%s %s (signature %q, seen %d times)\n", r.ID, r.known[sig].What, sig, v.Count)
+			fmt.Printf("KNOWN-FINDING: property=%s %s (signature %q, seen %d times)\n", r.ID, r.known[r.matchKnown(sig)].What, sig, v.Count)
 			knownHit = append(knownHit, sig)
 			continue
 		}
